@@ -282,8 +282,9 @@ def run_sensor_case(acc, case):
             acc.ev("calibrate-roundtrip")
             if not (isinstance(got, float) and abs(got - p) <= 1e-9 * max(1.0, abs(p))):
                 acc.violation("C18/calibrate", f"after calibrate({p!r}) at V={v!r} the sensor reports {got!r}", case, {})
-            # ... and calibration is per sensor object, not global
-            del s.Vn
+            # leave the sensor uncalibrated for the next case
+            if hasattr(s, "Vn"):
+                del s.Vn
 
 
 def gen_sensor_case(rng):
